@@ -11,7 +11,10 @@ NASTY = ['q"uote', "back\\slash", "tab\there", "new\nline", "nul\x00", "Ã©", "æ—
          "\\u0041", "</script>", "None", "null",
          # not in Unicode normal form C / characters that line-splitting and normalising helpers treat specially
          "cafe\u0301", "\u212b", "\u2126", "\ufb01", "\u1100\u1161", "x\u2028y", "x\u2029y", "x\x85y", "\x0b\x0c\x1c\x1d\x1e", "\ud7ff\ue000",
-         "\U0001f600\u200d", "\ufeff"]
+         "\U0001f600\u200d", "\ufeff",
+         # suffixes / spellings that a "normalising" constructor or reader would rewrite
+         ".git", "x.git.git", "ABCDEF12-3456-7890-ABCD-EF1234567890", "{abcdef12-3456-7890-abcd-ef1234567890}",
+         "urn:uuid:abcdef12-3456-7890-abcd-ef1234567890", "abcdef1234567890abcdef1234567890", " padded ", "MiXeD"]
 
 
 def gen_str(rng, base):
